@@ -273,7 +273,7 @@ var c17Broken = []struct {
 
 // c17Fault is one injected fault.
 type c17Fault struct {
-	Kind string `json:"k"` // ls (illegal char at line start), tb/ta (before/after token), rep (broken scalar), esc (bad escape in a string), nl (raw line terminator in a string), eof (truncation after a token)
+	Kind string `json:"k"` // ls (illegal char at line start), tb/ta (before/after token), rep (broken scalar), esc (bad escape in a string), nl (raw line terminator in a string), eof (truncation after a token), sep (a missing separator, followed by a well-formed value or by a broken scalar)
 	Idx  int    `json:"i"` // line index or token index
 	Var  int    `json:"v"` // variant
 }
@@ -295,12 +295,33 @@ func c17Inject(b *c17Built, f c17Fault) (text []byte, p int, ok bool) {
 		}
 		at := b.lineStarts[f.Idx]
 		return ins(at, ill), at, true
-	case "tb", "ta", "rep", "esc", "eof", "nl":
+	case "tb", "ta", "rep", "esc", "eof", "nl", "sep":
 		if f.Idx >= len(b.toks) {
 			return nil, 0, false
 		}
 		t := b.toks[f.Idx]
 		switch f.Kind {
+		case "sep":
+			// a separator (`,` or `:`) goes missing: the first byte of what follows is the unexpected one, whether that is a
+			// well-formed value or (every second variant) the start of a broken scalar
+			if t.kind != 'p' || t.e != t.s+1 || (b.text[t.s] != ',' && b.text[t.s] != ':') || f.Idx+1 >= len(b.toks) {
+				return nil, 0, false
+			}
+			nx := b.toks[f.Idx+1]
+			out := append([]byte{}, b.text[:t.s]...)
+			out = append(out, ' ')
+			if f.Var%2 == 1 && nx.kind == 'v' {
+				br := c17Broken[(f.Var/2)%len(c17Broken)]
+				if br.off == 0 {
+					br = c17Broken[0]
+				}
+				out = append(out, b.text[t.e:nx.s]...)
+				out = append(out, br.s...)
+				out = append(out, b.text[nx.e:]...)
+				return out, nx.s, true
+			}
+			out = append(out, b.text[t.e:]...)
+			return out, nx.s, true
 		case "tb":
 			return ins(t.s, ill), t.s, true
 		case "ta":
@@ -471,6 +492,10 @@ var kC17J = run.NewKind("c17.json", func(c *run.Ctx, t c17JCase) *run.Fail {
 			// the descriptor is a regular file whose first lines another process has already consumed: what the
 			// command reads, and therefore numbers, starts at the current position
 			prefix := []byte("{\"consumed\": \"by somebody else\"}" + c17Term(t.Term) + "[1, 2," + c17Term(t.Term) + " 3]" + c17Term(t.Term))
+			// ... a few bytes or many windows of the reader
+			for n := []int{0, 0, 700, 3000, 9000, 40000}[(t.Fault.Var+t.Fault.Idx)%6]; n > 0; n-- {
+				prefix = append(prefix, ("17" + c17Term(t.Term))...)
+			}
 			write("in.json", append(append([]byte{}, prefix...), whole...))
 			opt = run.CLIOpt{Args: args, StdinFile: path, StdinSkip: int64(len(prefix))}
 		default:
@@ -681,11 +706,14 @@ func c17BodyJSON(c *run.Ctx) {
 		nt := len(b.toks)
 		for i := 0; i < c.N(14, 40) && nt > 0; i++ {
 			k := r.IntN(nt)
-			kind := []string{"tb", "ta", "rep", "rep", "esc", "eof", "nl"}[r.IntN(7)]
+			kind := []string{"tb", "ta", "rep", "rep", "esc", "eof", "nl", "sep", "sep"}[r.IntN(9)]
 			// move to a token the fault applies to
 			for j := 0; j < nt; j++ {
 				tk := b.toks[(k+j)%nt]
 				if kind == "rep" && tk.kind != 'v' || (kind == "esc" || kind == "nl") && !tk.str || kind == "eof" && (k+j)%nt >= nt-1 {
+					continue
+				}
+				if kind == "sep" && (tk.kind != 'p' || tk.e != tk.s+1 || (b.text[tk.s] != ',' && b.text[tk.s] != ':') || (k+j)%nt >= nt-1) {
 					continue
 				}
 				k = (k + j) % nt
